@@ -374,6 +374,8 @@ func exec(op string) (res string) {
 		return "bad-op"
 	}
 	switch w[0] {
+	case "dialplan", "dialsec":
+		return dialOp(w)
 	case "tls":
 		if len(w) != 7 {
 			return "bad-op"
@@ -709,6 +711,45 @@ func genPwConn(r *vh.Rng, cls string) string {
 	default:
 		return fmt.Sprintf("host=%d static=none prov=%s", h, genProvider(r, cls, h, genPw(r, cls)))
 	}
+}
+
+// a distinctive secret: <prefix>-<10 random characters>, sometimes with a space, a quote or a non-ASCII character
+func genSecret(r *vh.Rng, pfx string) []byte {
+	const al = "abcdefghijklmnopqrstuvwxyz0123456789"
+	b := []byte(pfx + "-")
+	for i := 0; i < 10; i++ {
+		b = append(b, al[r.Intn(len(al))])
+	}
+	switch r.Intn(6) {
+	case 0:
+		b = append(b, " \"x"...)
+	case 1:
+		b = append(b, "\xc3\xa9"...)
+	}
+	return b
+}
+
+// a configuration WITH credentials for the dialled host (password or caller-supplied tokens), all of them distinctive;
+// never both Authenticator and AuthProvider
+func genLeakConn(r *vh.Rng, cls string) string {
+	h := 1 + r.Intn(3)
+	auth := "pw:" + vh.Hex(genSecret(r, "usr")) + ":" + vh.Hex(genSecret(r, "pwd")) + ":" + genAllowed(r, cls)
+	if r.Intn(4) == 0 {
+		n := 1 + r.Intn(3)
+		rs := make([]string, n)
+		for i := range rs {
+			l := "0"
+			if i == n-1 && r.Bool() {
+				l = "1"
+			}
+			rs[i] = vh.Hex(genSecret(r, "tok")) + ".0" + l
+		}
+		auth = "cu:" + strings.Join(rs, ",") + ":" + []string{"0", "0", "1"}[r.Intn(3)]
+	}
+	if r.Bool() {
+		return fmt.Sprintf("host=%d static=%s prov=-", h, auth)
+	}
+	return fmt.Sprintf("host=%d static=none prov=%s", h, genProvider(r, cls, h, auth))
 }
 
 func genChal(r *vh.Rng) string {
@@ -1161,6 +1202,35 @@ func main() {
 			return "oracle/tlscred/refused"
 		})
 	}
+	// credentials never show up in what the driver logs (the session's Logger) or reports (the returned error):
+	// distinctive user names / passwords / caller-authenticator tokens, every kind of server answer, through the
+	// public NewSession (control connection: logs) and Session.connect
+	for i := 0; i < 120*hm; i++ {
+		cls := genClass(r)
+		if i%3 == 0 {
+			cls = defaults[r.Intn(len(defaults))]
+		}
+		mode := []string{"ns", "cx"}[i%2]
+		sc := genScript(r, cls)
+		if i%4 < 2 {
+			sc = genAuthScript(r, cls)
+		}
+		add(strings.TrimSpace("noleak "+mode+" "+genLeakConn(r, cls)+" "+strings.Join(sc, " ")), fixed("oracle/noleak/"+mode))
+	}
+	// EVERY DIALER: with SslOpts, TLS on every connection the driver dials itself (caller's Dialer or its own), handed
+	// on exactly when the documented table / expected name / CAs say so; several dials through the one shared config
+	for i := 0; i < 200*mult; i++ {
+		args, kind := genDialArgs(r, true)
+		add("dialsec "+args, func(a string) string {
+			switch {
+			case strings.Contains(a, "proceeded=1") && strings.Contains(a, "proceeded=0"):
+				return "oracle/dialsec/" + kind + "/mixed"
+			case strings.Contains(a, "proceeded=1"):
+				return "oracle/dialsec/" + kind + "/all-proceed"
+			}
+			return "oracle/dialsec/" + kind + "/all-refused"
+		})
+	}
 	// setupTLSConfig: the whole finite domain of (config, EnableHostVerification) x file states
 	cfgs := []string{"nil"}
 	for _, i := range "01" {
@@ -1329,6 +1399,17 @@ func main() {
 				return "tlsx/some-rejected"
 			}
 			return "tlsx/all-accepted"
+		})
+	}
+	// the dial itself, every dialer configuration (HostDialer / Dialer / defaults x SslOpts), hosts without address
+	// or port, failing TCP dials, IPv4 / IPv6, several dials through one session: model vs code
+	for i := 0; i < 250*mult; i++ {
+		args, kind := genDialArgs(r, false)
+		add("dialplan "+args, func(a string) string {
+			if strings.HasPrefix(a, "err:") {
+				return "dialplan/" + kind + "/" + a
+			}
+			return "dialplan/" + kind
 		})
 	}
 	// the public entry point: NewSession with a scripted HostDialer
